@@ -97,11 +97,12 @@ impl Offset {
 
     /// Returns the length of the offset.
     /// If the underlying cursor types are not of the same type, the length
-    /// is undefined and None is returned.
+    /// is undefined and None is returned. The same goes for offsets that do not denote
+    /// a range at all (end before begin, or an end-aligned cursor above zero).
     pub fn len(&self) -> Option<usize> {
         match (self.begin, self.end) {
-            (Cursor::BeginAligned(begin), Cursor::BeginAligned(end)) => Some(end - begin),
-            (Cursor::EndAligned(begin), Cursor::EndAligned(end)) => Some((end - begin).abs() as usize),
+            (Cursor::BeginAligned(begin), Cursor::BeginAligned(end)) => end.checked_sub(begin),
+            (Cursor::EndAligned(begin), Cursor::EndAligned(end)) if begin <= end && end <= 0 => Some(end.abs_diff(begin)),
             _ => None
         }
     }
